@@ -295,6 +295,92 @@ CHECKS.update({
              "Vanishing spin blocks are decided in C15."),
 })
 
+CHECKS.update({
+    "C11": dict(
+        text="Bounded-exhaustive exploration of the real expand_intermediates "
+             "/ reduce_expr / factor_intermediates entry points: every "
+             "registered intermediate at permuted, renamed and repeated "
+             "index tuples x remainders, products of two intermediates over "
+             "index patterns, perturbed definitions (mixed prefactors, "
+             "incomplete variants), the documented derivation pipelines "
+             "(E(2), E(3), rho(2), secular-matrix blocks) and first-order RE "
+             "residuals, x name / type / max_order requests. Every output is "
+             "compared with its input as an exact rational function in a "
+             "model where each intermediate tensor takes the value of its "
+             "registered definition (tables built on orbital numbers).",
+        design="4 C11, 8.2",
+        note="Trusted: ring/model/evalexpr and vmc/c11_model.py, which reads "
+             "only tensor() and expand_itmd() at the default indices (the "
+             "definitions themselves are C12's subject). Bounded: (2,2) spin "
+             "orbitals (thorough adds (3,3) for second-order synthetic "
+             "inputs), <=2 intermediates per term, third order expansion and "
+             "once-expanded factoring only; completeness of factorisation is "
+             "not checked; 240 s per-operation timeout."),
+    "C14": dict(
+        text="Every expression of a grammar (1-3 occurrences of the removed "
+             "tensor in every block of 20+ tensor families: every class, "
+             "bra-ket 0/+-1, ADC amplitudes, spin/general blocks; all index "
+             "patterns, exponents, Einstein and explicit targets; two-term "
+             "sums) is run through the real remove_tensor and derivative. "
+             "Decided exactly: the re-contraction with the documented weights "
+             "(1/|G0|, x2 off-diagonal bra-ket, 1/sqrt|G0| for X/Y) must "
+             "reproduce the value table of the input as a polynomial "
+             "identity in formal tensor entries; the block expression must "
+             "be (anti)symmetric under the removed block's symmetry; "
+             "sum_b eta_b*D_b must equal the eps-coefficient of E(N+eps*eta) "
+             "built independently by the product rule.",
+        design="4 C14, 8.2",
+        note="Trusted: evalexpr/ring/model, the sympy_objects constructors "
+             "and the Expr constructor. Bounded: <=3 occurrences, <=2 "
+             "remainder tensors, <=2 terms, <=4 distinct index names per "
+             "space, exponent <=2 (3 thorough), rank (3,3) only thorough. "
+             "Several-block keys are matched existentially over the block "
+             "order; the derivative block multiplies the canonical tensor. "
+             "Two known findings (see known_findings.json)."),
+    "C15": dict(
+        text="For every term of a grammar (1-3 objects from ERI, Coulomb "
+             "integrals, t-amplitudes, deltas, symbolic denominators, orbital "
+             "energies, registered-intermediate tensors and unknown tensors; "
+             "every index pattern; Einstein/explicit/extended/empty target "
+             "sets), chains of three connected objects with every explicit "
+             "target set of size <=2, and two/three-term sums, EVERY spin "
+             "string of the target indices is passed to integrate_spin and "
+             "transform_to_spatial_orbitals (restricted on/off, expand_eri "
+             "on/off); the value table of the result is compared exactly "
+             "with the input evaluated on spin orbitals of the requested "
+             "spins with tensors that vanish outside spin-conserving blocks "
+             "(restricted: entry = [allowed block] * W(spatial labels)); "
+             "every block not reported by Obj.allowed_spin_blocks, "
+             "RegisteredIntermediate.allowed_spin_blocks or "
+             "allowed_spin_blocks(expr) is shown to vanish identically.",
+        design="4 C15, 8.2",
+        note="Trusted: ring/evalexpr/model, the SpinModel rules in c15.py, "
+             "the registered intermediate definitions. Bounded (quick): <=3 "
+             "objects, <=8/6 slots, <=3 index symbols per space, <=4 target "
+             "indices; tensors unknown to adcgen are general; t4_2's block "
+             "table is not evaluated."),
+    "C19": dict(
+        text="Every history word over a 14-call alphabet (derivations filling "
+             "member caches, explicit / generic index requests) up to depth 2 "
+             "(thorough 3), each followed by each of 26 probe requests, each "
+             "(word, probe) executed in its own pristine forked interpreter; "
+             "the same probes for all words of depth <=1 under PYTHONHASHSEED "
+             "0..3 (0..15) and under 4 tensor-name configurations (scratch "
+             "copy of the imported package) in fresh interpreters. Every "
+             "result is compared with the history-free default result by "
+             "exact value (formal tensor entries; operator-valued results "
+             "via an independent determinant algebra), by text after "
+             "substitute_contracted(), and by monitors that psi / "
+             "norm_factor / get_generic_indices never reuse contracted or "
+             "handed-out indices.",
+        design="4 C19, 8.2",
+        note="Trusted: evalexpr/ring/model, os.fork semantics. The oracle is "
+             "relative (same request in a pristine default process): "
+             "history-independent errors belong to C01-C18. Bounded: listed "
+             "alphabet, depth, seeds 0..15, 4 configurations. Two known "
+             "findings (see known_findings.json)."),
+})
+
 NOT_YET = {}
 
 
